@@ -342,7 +342,7 @@ Definition createLossItvls (p : list Z) : res (list litvl) :=
   do l <- lossLoop p LUnknown 0 [];
   if cycleDurS l <=? 0 then Err "invalid loss pattern" else Ok l.
 
-(** CreateLossItvls with the range check of proposed_fixes/C14-loss-duration-range.diff: while the digits
+(** CreateLossItvls as it is since cae471f, with the range check of the durations: while the digits
     of a duration are accumulated, a value above maxLossItvlDurS is refused.  ([lossLoop] /
     [createLossItvls] above are the parser without that check, as it was before.) *)
 Definition maxLossItvlDur : Z := 2147483647.   (* maxLossItvlDurS = 1<<31 - 1; tied to the source in props/C14.v *)
